@@ -20,6 +20,9 @@ TABLE = [
     ("*ChordsV2::drain_inputs|?|extend*", "ignore window: forwards the v2 queue wholesale; more than 16 pending events in one tick are needed to evict"),
     ("*Layout::tick|queue|extend*", "re-injects at most 16 drained events into the 32-slot queue, which chords v2 keeps empty while it is active"),
     ("*OneShotState::handle_press|?|extend*", "moves at most 16 coordinates between two 16-slot rings"),
+    ("*OneShotState::handle_release|released_keys|push_back/returned-to/process_sequences",
+     "macro key releases call handle_release with the fake coordinate (0, 0), which is never a one-shot key (layer position 0 is forced to NoOp, "
+     "R-FILL): the call returns (true, None) and evicts nothing"),
 ]
 
 
@@ -63,6 +66,25 @@ def run(prog, fields=None, floor=8):
                         used = True
                 if meth.startswith("extend"):
                     used = False
+                # handed to the caller inside the return value? then every caller has to look at that component
+                ret_slot = _returned_slot(f, dl)
+                if used and ret_slot is not None:
+                    for (cf, cb, ct) in prog.call_sites(f.norm):
+                        key2 = "%s|%s|%s/returned-to/%s" % (f.norm, field, meth, cf.norm.split("::")[-1])
+                        tab = [r_ for p_, r_ in TABLE if fnmatch.fnmatchcase(key2, p_)]
+                        if tab:
+                            res.inst(key2, where="%s:%s" % (cf.file, ct.get("ln")), how="table: " + tab[0])
+                            res.oblige(True)
+                            continue
+                        if not _reads_field(cf, ct["dest"], ret_slot):
+                            res.inst(key2, where="%s:%s" % (cf.file, ct.get("ln")), how="DROPPED by caller")
+                            res.oblige(False)
+                            res.viol(key2, "%s:%s" % (cf.file, ct.get("ln")),
+                                     "%s returns the element evicted from %s to its caller, and %s ignores it: the evicted deferred release is "
+                                     "lost (the key it belongs to stays down)" % (f.norm.split("::")[-1], field, cf.norm.split("::")[-1]))
+                        else:
+                            res.inst("%s|%s|%s/returned-to/%s" % (f.norm, field, meth, cf.norm.split("::")[-1]), where="%s:%s" % (cf.file, ct.get("ln")), how="caller reads it")
+                            res.oblige(True)
                 base = "%s|%s|%s" % (f.norm, field, meth)
                 ord_ = sum(1 for i in res.instances if i["key"].split("#")[0] == base)
                 key = base if ord_ == 0 else "%s#%d" % (base, ord_)
@@ -91,3 +113,55 @@ def run_c06(prog):
 
 def run_c08(prog):
     return run(prog, fields=("active_sequences",), floor=2)
+
+
+def _returned_slot(f, dl):
+    """index of the tuple component of the return value that holds local dl (following plain moves), or None"""
+    from kq.core import proj
+    aliases = {dl}
+    changed = True
+    while changed:
+        changed = False
+        for bi, si, st in f.all_rvalues():
+            rv = st["rv"]
+            if rv["k"] == "use" and is_place(rv["a"]) and not proj(rv["a"]) and rv["a"]["l"] in aliases and not proj(st["p"]) and st["p"]["l"] not in aliases:
+                aliases.add(st["p"]["l"])
+                changed = True
+    for bi, si, st in f.all_rvalues():
+        rv = st["rv"]
+        if st["p"]["l"] == 0 and not proj(st["p"]) and rv["k"] == "agg" and rv.get("tup"):
+            for k, o in enumerate(rv["ops"]):
+                if is_place(o) and not proj(o) and o["l"] in aliases:
+                    return k
+    return None
+
+
+def _reads_field(g, dest, k):
+    """does g read component k of the place `dest` (a call destination)?"""
+    from kq.core import proj
+    if proj(dest):
+        return True
+    dl = dest["l"]
+
+    def hits(o):
+        if not is_place(o) or o["l"] != dl:
+            return False
+        pr = [e for e in proj(o) if isinstance(e, dict) and "f" in e]
+        return bool(pr) and str(pr[0].get("i", pr[0].get("f"))) == str(k) or (bool(pr) and str(pr[0].get("f")) == str(k))
+    for b2 in g.reachable():
+        for st in g.stmts(b2):
+            if st["k"] == "assign":
+                rv = st["rv"]
+                if any(hits(o) for o in rvalue_operands(rv)):
+                    return True
+                if rv["k"] in ("discr", "ref", "rawptr") and hits(rv.get("p")):
+                    return True
+                # whole-tuple move keeps everything alive: treat as read
+                if rv["k"] == "use" and is_place(rv["a"]) and rv["a"]["l"] == dl and not proj(rv["a"]):
+                    return True
+        t2 = g.term(b2)
+        if t2["k"] == "call" and any(hits(a) or (is_place(a) and a["l"] == dl and not proj(a)) for a in t2["args"]):
+            return True
+        if t2["k"] == "switch" and hits(t2["d"]):
+            return True
+    return False
